@@ -333,8 +333,24 @@ func c15EngSetup(t *testing.T) {
 	}
 }
 
+// c15EngFreeAddr returns a free loopback address, or "" when the machine has no ephemeral port to give at the moment (many
+// checks running at once leave thousands of sockets in TIME_WAIT): the caller skips the case, an environment condition is
+// neither a verdict nor a harness failure.
 func c15EngFreeAddr(x *h.Ctx) string {
-	l, err := net.Listen("tcp", "127.0.0.1:0")
+	var l net.Listener
+	var err error
+	for i := 0; i < 20; i++ {
+		if l, err = net.Listen("tcp", "127.0.0.1:0"); err == nil {
+			break
+		}
+		if !strings.Contains(err.Error(), "address already in use") {
+			break
+		}
+		time.Sleep(100 * time.Millisecond)
+	}
+	if err != nil && strings.Contains(err.Error(), "address already in use") {
+		return ""
+	}
 	x.NoErr(err, "free port")
 	addr := l.Addr().String()
 	_ = l.Close()
@@ -549,6 +565,10 @@ func c15RunEngine(x *h.Ctx, c c15EngCase) {
 	// the engine, through its production constructor and Configure
 	dir := x.TempDir()
 	addr := c15EngFreeAddr(x)
+	if addr == "" {
+		x.Class("skipped:no-ephemeral-port-available")
+		return
+	}
 	kv, err := bbolt.CreateBBoltStore(filepath.Join(dir, "network.db"), stoabs.WithNoSync())
 	x.NoErr(err, "bbolt")
 	provider := storage.StaticKVStoreProvider{Store: kv}
